@@ -523,12 +523,12 @@ func c13SharedOptions(c *rep.Ctx) {
 			var b bytes.Buffer
 			old := color.Output
 			color.Output = &b
-			err := gtree.MkdirFromRoot(mkTree(), append(o, gtree.WithTargetDir(t))...)
+			err := gtree.MkdirFromRoot(mkTree(), append(append([]gtree.Option{}, o...), gtree.WithTargetDir(t))...)
 			color.Output = old
 			return res{b.String() + fmt.Sprint(fsx.Snapshot(t).Kinds()), fmt.Sprint(err)}
 		}},
 		{"VerifyFromMarkdown", func(o []gtree.Option, t string) res {
-			err := gtree.VerifyFromMarkdown(strings.NewReader(doc), append(o, gtree.WithTargetDir(t))...)
+			err := gtree.VerifyFromMarkdown(strings.NewReader(doc), append(append([]gtree.Option{}, o...), gtree.WithTargetDir(t))...)
 			return res{"", sortLines(strings.ReplaceAll(fmt.Sprint(err), t, "<T>"))} // (paths are listed in map order)
 		}},
 	}
